@@ -13,7 +13,7 @@ git apply $SD/patch.diff || { echo "PATCH DOES NOT APPLY"; exit 1; }
 demo=$(ls $SD/*_test.go | head -1)
 pkgline=$(grep -m1 '^package ' $demo | awk '{print $2}')
 case $pkgline in
-  tests) dir=tests;; fix) dir=fix;; fix_test) dir=fix;; encoding|encoding_test) dir=fix/encoding;; simplefixgo|simplefixgo_test) dir=.;; session|session_test) dir=session;; *) dir=tests;;
+  tests) dir=tests;; fix) dir=fix;; fix_test) dir=fix;; encoding|encoding_test) dir=fix/encoding;; simplefixgo|simplefixgo_test) dir=.;; session|session_test) dir=session;; *) if [[ "$ID" == C12* ]]; then dir=generator/zzdemo_${pkgline%_test}; mkdir -p $dir; else dir=tests; fi;;
 esac
 race=""
 grep -q "go:build race\|-race" $demo $SD/notes.md 2>/dev/null && [[ "$ID" == C20* ]] && race="-race"
@@ -29,4 +29,4 @@ git apply -R $SD/patch.diff
 without=$(go test $race -vet=off -count=1 -run "$pat" ./$dir 2>&1 | grep -E '^(ok|FAIL|---|panic)' | head -4 | tr '\n' ' ')
 echo "demo WITHOUT change: $without"
 git apply $SD/patch.diff
-rm -f $dir/zz_seeded_demo_test.go
+rm -f $dir/zz_seeded_demo_test.go; [[ "$dir" == generator/zzdemo_* ]] && rm -rf $dir
